@@ -11,6 +11,7 @@ import os
 import posixpath
 import re
 import shutil
+import sys
 from collections import OrderedDict
 
 from vp import common
@@ -54,6 +55,12 @@ DEFAULT_CFG = {'n_workers': None, 'path': 'str', 'author': 'nobody', 'version': 
 # in a history must satisfy the whole oracle
 HISTORIES = ['once', 'two-dirs', 'same-dir-twice', 'clean-rewrite', 'format-twice', 'rst-reused-before',
              'rst-reused-after', 'three-dirs']
+# several Rst objects formatting DIFFERENT reports (cfg['partners']) at overlapping times in one process:
+#   overlap-threads  when report i is half formatted, report i+1 is formatted in another thread, then i goes on
+#   overlap-nested   the same, in the same thread (a representer that formats another report)
+#   overlap-barrier  one thread per report, all of them wait for each other when half formatted, then go on
+# the overlap is made deterministic by a wrapper around the Representation that fires a hook at a chosen call
+OVERLAPS = ['overlap-threads', 'overlap-nested', 'overlap-barrier']
 
 
 def gen_cfg(rng):
@@ -317,7 +324,27 @@ def gen_cases(ctx, pool):
                         'cfg': dict(DEFAULT_CFG, history=hist, n_workers=nw)})
         out.append({'tree': ['M', [0], [['A', [1], []], ['A', [2], []]]], 'cfg': dict(DEFAULT_CFG, history=hist)})
     ctx.count('corpus_configurations', len(out) - ncorpus)
-    out += [{'tree': tree, 'cfg': gen_cfg(rng)} for tree in cases[ncorpus:]]
+    rand = [{'tree': tree, 'cfg': gen_cfg(rng)} for tree in cases[ncorpus:]]
+    # overlapping format_report() calls: 12% of the random cases get one or two partner reports
+    for k, case in enumerate(rand):
+        if rng.random() < 0.12 and len(rand) > 3:
+            partners = [rng.choice(rand)['tree'] for _ in range(rng.choice([1, 1, 2]))]
+            case['cfg'] = dict(case['cfg'], history=rng.choice(OVERLAPS), partners=partners)
+            if nresults(case['tree']) == 0:
+                case['tree'][1].append(rng.randrange(NPOOL))
+    # corpus of overlaps: two / three reports with results and plots of their own, one of them refused
+    rep_a = ['RA', [with_plot[0], without[0]], [['A', [with_plot[1]], [['x', [with_plot[2]], []]]], ['B', [5], []]]]
+    rep_b = ['RB', [with_plot[3]], [['A', [with_plot[4], without[1]], []], ['C', [], [['y', [with_plot[0]], []]]]]]
+    rep_c = ['RC', [without[2]], [['Z', [with_plot[5]], []]]]
+    rep_bad = ['RD', [with_plot[1]], [['A', [2], []], ['A', [3], []]]]
+    for mode in OVERLAPS:
+        for nw in (None, 2):
+            out.append({'tree': rep_a, 'cfg': dict(DEFAULT_CFG, history=mode, partners=[rep_b], n_workers=nw)})
+        out.append({'tree': rep_a, 'cfg': dict(DEFAULT_CFG, history=mode, partners=[rep_b, rep_c])})
+        out.append({'tree': rep_b, 'cfg': dict(DEFAULT_CFG, history=mode, partners=[rep_bad, rep_a])})
+        out.append({'tree': rep_bad, 'cfg': dict(DEFAULT_CFG, history=mode, partners=[rep_c])})
+    ctx.count('corpus_overlaps', 5 * len(OVERLAPS))
+    out += rand
     return out
 
 
@@ -391,6 +418,101 @@ def observe(base, rep_dir, pool, raised):
     return {'raised': raised, 'files': files, 'pages': pages, 'figs': figs, 'others': others}
 
 
+class Gate:
+    '''a Representation that calls `hook` once, when it is asked for its `at`-th result'''
+    def __init__(self, inner, at, hook):
+        self.inner, self.at, self.hook, self.count = inner, at, hook, 0
+
+    @property
+    def verbosity(self):
+        return self.inner.verbosity
+
+    def __call__(self, result):
+        k, self.count = self.count, self.count + 1
+        if k == self.at and self.hook is not None:
+            hook, self.hook = self.hook, None
+            hook()
+        return self.inner(result)
+
+
+def nresults(tree):
+    return len(tree[1]) + sum(nresults(kid) for kid in tree[2])
+
+
+def run_overlap(trees, mode, cfg, pool, TestReport, target, write):
+    '''format the reports of `trees` with one Rst object each, at overlapping times; then write every one of them
+    to a directory of its own; returns one observation per report (tagged with its tree)'''
+    import threading
+    n = len(trees)
+    rsts, fmts, errs, started = [None] * n, [None] * n, [None] * n, [False] * n
+    parties = sum(1 for t in trees if nresults(t) > 0)
+    barrier = threading.Barrier(parties) if mode == 'overlap-barrier' and parties > 1 else None
+
+    def run(i):
+        def hook():
+            if barrier is not None:
+                try:
+                    barrier.wait(timeout=2.0)
+                except threading.BrokenBarrierError:
+                    pass
+            elif mode != 'overlap-barrier' and i + 1 < n and not started[i + 1]:
+                launch(i + 1)
+        started[i] = True
+        inner = pool.rpr.Representation(pool.rpr.FullRepresenter())
+        rsts[i] = pool.Rst(Gate(inner, nresults(trees[i]) // 2, hook), n_workers=cfg['n_workers'])
+        try:
+            report = build_report(TestReport, pool, trees[i])
+            fmts[i] = rsts[i].format_report(report=report, author=cfg['author'], version=cfg['version'])
+        except Exception as exc:     # noqa
+            errs[i] = type(exc).__name__
+
+    def launch(i):
+        if mode == 'overlap-nested':
+            run(i)
+        else:
+            thread = threading.Thread(target=run, args=(i,))
+            thread.start()
+            thread.join()
+
+    if mode == 'overlap-barrier':
+        threads = [threading.Thread(target=run, args=(i,)) for i in range(n)]
+        for thread in threads:
+            thread.start()
+        for thread in threads:
+            thread.join()
+    else:
+        launch(0)
+        for i in range(n):
+            if not started[i]:
+                launch(i)
+    # no two Rst / FormattedRst objects may share a mutable container
+    structural = []
+    for i in range(n):
+        for j in range(i + 1, n):
+            for attr in ('tree_dict', 'text_dict', 'plots'):
+                for kind, objs in (('Rst', rsts), ('FormattedRst', fmts)):
+                    a, b = objs[i], objs[j]
+                    if a is not None and b is not None and getattr(a, attr) is getattr(b, attr):
+                        structural.append(f'two {kind} objects share their {attr}')
+            if fmts[i] is not None and fmts[j] is not None:
+                ids = {id(v) for v in fmts[i].text_dict.values()} | {id(v) for v in fmts[i].tree_dict.values()}
+                if any(id(v) in ids for v in list(fmts[j].text_dict.values()) + list(fmts[j].tree_dict.values())):
+                    structural.append('two FormattedRst objects share the list of a section')
+    out = []
+    for i in range(n):
+        if fmts[i] is None:
+            base, rep_dir, _ = target(i)
+            obs = observe(base, rep_dir, pool, errs[i] or 'NotFormatted')
+        else:
+            base, rep_dir, raised = write(fmts[i], i)
+            obs = observe(base, rep_dir, pool, raised)
+        obs['tree'] = trees[i]
+        if i == 0:
+            obs['structural'] = sorted(set(structural))
+        out.append(obs)
+    return out
+
+
 def run_case(tree, wdir, pool, TestReport, cfg=None):
     '''run one (tree, configuration); returns one observation per directory the history writes'''
     from pathlib import Path
@@ -424,6 +546,8 @@ def run_case(tree, wdir, pool, TestReport, cfg=None):
         return base, rep_dir, raised
 
     hist = cfg['history']
+    if hist in OVERLAPS:
+        return run_overlap([tree] + list(cfg.get('partners') or []), hist, cfg, pool, TestReport, target, write)
     rst = pool.new_rst(cfg['n_workers'])
 
     def fmt_of(rep):
@@ -498,12 +622,17 @@ def unwritable_reason(tree, pool):
     return None
 
 
-def oracle(ctx, tree, obs, pool, cfg=None):
+def oracle(ctx, tree, obs, pool, cfg=None, main=None):
     cfg = cfg or DEFAULT_CFG
+    main = tree if main is None else main
 
     def fail(what, key):
-        ctx.oracle_failure(f'{what} :: {json.dumps(cfg)} {json.dumps(tree)[:400]}', {'tree': tree, 'cfg': cfg},
+        shown = {k: v for k, v in cfg.items() if k != 'partners'}
+        ctx.oracle_failure(f'{what} :: {json.dumps(shown)} {json.dumps(tree)[:400]}', {'tree': main, 'cfg': cfg},
                            key=key)
+
+    for what in obs.get('structural', []):
+        fail(what, 'shared-containers')
 
     reason = unwritable_reason(tree, pool)
     if obs['raised']:
@@ -591,6 +720,77 @@ def coq_obs(obs):
             + clist([coq_path(f) for f in obs['others']]) + ')')
 
 
+# --------------------------------------------------------------------------
+# other interpreter configurations: the same cases written by a child interpreter started with other flags
+# (assertions disabled, docstrings stripped, another hash seed), each into a fresh directory
+
+INTERPRETERS = [{'flags': ['-O'], 'hashseed': '0'}, {'flags': ['-OO'], 'hashseed': 'random'},
+                {'flags': ['-O', '-X', 'dev'], 'hashseed': '12345'}]
+
+
+def child_main(inp, outp):
+    '''runs in the child interpreter: write every case of `inp`, store the observations in `outp`'''
+    pool, TestReport = load()
+    cases = json.load(open(inp))
+    wdir = os.path.join(os.path.dirname(os.path.abspath(outp)), 'child-c20')
+    out = []
+    for case in cases:
+        out.append(run_case(case['tree'], wdir, pool, TestReport, case['cfg']))
+    shutil.rmtree(wdir, ignore_errors=True)
+    with open(outp, 'w') as fil:
+        json.dump({'optimize': sys.flags.optimize, 'results': out}, fil)
+
+
+def run_in_child(cases, interp, wdir):
+    '''-> list (one per case) of lists of observations, made by a child interpreter'''
+    import subprocess
+    os.makedirs(wdir, exist_ok=True)
+    inp, outp = os.path.join(wdir, 'child-in.json'), os.path.join(wdir, 'child-out.json')
+    with open(inp, 'w') as fil:
+        json.dump(cases, fil)
+    env = dict(os.environ, PYTHONHASHSEED=interp['hashseed'], VERIF_REPO=common.REPO,
+               PYTHONPATH=common.REPO + os.pathsep + os.path.join(common.VERIF, 'harness'))
+    cmd = [sys.executable, '-W', 'ignore'] + interp['flags'] + \
+        ['-c', 'import sys, c20; c20.child_main(sys.argv[1], sys.argv[2])', inp, outp]
+    proc = subprocess.run(cmd, env=env, stdout=subprocess.PIPE, stderr=subprocess.STDOUT, text=True, timeout=600)
+    if proc.returncode != 0 or not os.path.exists(outp):
+        raise RuntimeError(f'child interpreter {interp} failed: {proc.stdout[-2000:]}')
+    data = json.load(open(outp))
+    if '-O' in interp['flags'] or '-OO' in interp['flags']:
+        assert data['optimize'] >= 1, 'the child interpreter did not run with assertions disabled'
+    for per_case in data['results']:
+        for obs in per_case:
+            obs['pages'] = {doc: tuple(page) for doc, page in obs['pages'].items()}
+    return data['results']
+
+
+def gen_child_cases(ctx, pool):
+    '''a sample for the child interpreters: nested sections (depth >= 2), plots, refused trees, some configurations'''
+    rng = ctx.rng
+
+    def leaf(t, rs=()):
+        return [t, list(rs), []]
+    trees = [
+        ['M', [0], [['A', [1], [leaf('B', [2])]]]],
+        ['M', [0], [['A', [], [['B', [1], [['C', [], [leaf('D', [2])]]]]]], ['E', [3], [leaf('F', [4])]]]],
+        ['M', [], [['figures', [0], [leaf('x', [1])]], ['.static', [], [leaf('y', [2])]]]],
+        ['M', [0], [leaf('A', [1]), ['B', [], [leaf('a/b', [2])]]]],
+        ['M', [0], [['A', [], [leaf('X', [1]), leaf('X', [2])]]]],
+        ['M', [0], [['A', [], [['S', [1], [leaf('x', [2])], 's1']]], ['B', [3], [['S', [1], [leaf('x', [2])], 's1']]]]],
+    ]
+    cases = [{'tree': tree, 'cfg': dict(DEFAULT_CFG)} for tree in trees]
+    cases.append({'tree': trees[1], 'cfg': dict(DEFAULT_CFG, n_workers=2, path='nested-missing')})
+    cases.append({'tree': trees[0], 'cfg': dict(DEFAULT_CFG, history='two-dirs', path='Path')})
+    nrand = 22 if ctx.tier == 'quick' else 300
+    while len(cases) < len(trees) + 2 + nrand:
+        tree = gen_tree(rng, rng.choice([2, 3, 4]), rng.choice([None, None, None, 'bad', 'dup', 'variant-sibling',
+                                                                'shared-subreport']), pool)
+        if depth_of(tree) >= 3:
+            cfg = gen_cfg(rng)
+            cases.append({'tree': tree, 'cfg': cfg})
+    return cases
+
+
 def load():
     common.import_repo()
     from valjean.javert.test_report import TestReport
@@ -619,7 +819,10 @@ def run(ctx):
                 'strings, and a history on the Rst / FormattedRst objects (45%: write to two / three directories, twice to '
                 'the same, clean and rewrite, format_report twice, Rst reused for another report before / after): every '
                 'directory written is checked; 11% of the trees are DAGs (one TestReport object below two parents, or '
-                'twice below one parent); distinct by (tree, configuration)')
+                'twice below one parent); 12% of the cases format two or three different reports with one Rst each at '
+                'overlapping times (threads / nested / barrier, overlap made deterministic by a gate in the '
+                'representation) and every report is written and checked; a sample with nested sections is also written '
+                'by child interpreters (python -O, -OO, other hash seed); distinct by (tree, configuration)')
     cases = gen_cases(ctx, pool)
     wdir = os.path.join(ctx.wd(), 'c20')
     done = []
@@ -627,10 +830,10 @@ def run(ctx):
         tree, cfg = case['tree'], case['cfg']
         all_obs = run_case(tree, wdir, pool, TestReport, cfg)
         for obs in all_obs:
-            oracle(ctx, tree, obs, pool, cfg)
-            done.append((tree, obs, cfg))
+            oracle(ctx, obs.get('tree', tree), obs, pool, cfg, main=tree)
+            done.append((obs.get('tree', tree), obs, cfg))
         ctx.count('directories_observed', len(all_obs))
-        obs = all_obs[-1]
+        obs = all_obs[0] if cfg.get('history') in OVERLAPS else all_obs[-1]
         ctx.case_seen(case, bool(obs['raised']) or len(obs['pages']) >= 3, sample_every=131)
         ctx.count(f'n_workers_{cfg["n_workers"]}')
         ctx.count(f'path_{cfg["path"]}')
@@ -646,6 +849,20 @@ def run(ctx):
             ctx.count('pages_written', len(obs['pages']))
             ctx.count('figures_written', len(obs['figs']))
     shutil.rmtree(wdir, ignore_errors=True)
+    # the same kind of cases through child interpreters with other flags (python -O, -OO, ...)
+    child_cases = gen_child_cases(ctx, pool)
+    interps = INTERPRETERS[:2] if ctx.tier == 'quick' else INTERPRETERS
+    for k, interp in enumerate(interps):
+        part = child_cases if ctx.tier != 'quick' else child_cases[:8] + child_cases[8 + k::len(interps)]
+        results = run_in_child(part, interp, os.path.join(ctx.wd(), f'child{k}'))
+        for case, all_obs in zip(part, results):
+            cfg = dict(case['cfg'], interpreter=interp)
+            for obs in all_obs:
+                oracle(ctx, obs.get('tree', case['tree']), obs, pool, cfg, main=case['tree'])
+                done.append((obs.get('tree', case['tree']), obs, cfg))
+            ctx.case_seen({'tree': case['tree'], 'cfg': cfg}, True)
+            ctx.count('interpreter_' + ' '.join(interp['flags']))
+            ctx.count('directories_observed', len(all_obs))
     shard_size = 80
     shards = []
     for k in range(0, len(done), shard_size):
@@ -680,13 +897,19 @@ def replay(ctx, path):
     else:
         tree = case
     wdir = os.path.join(ctx.wd(), 'c20')
-    all_obs = run_case(tree, wdir, pool, TestReport, cfg)
+    if cfg.get('interpreter'):
+        plain = {k: v for k, v in cfg.items() if k != 'interpreter'}
+        all_obs = run_in_child([{'tree': tree, 'cfg': plain}], cfg['interpreter'], os.path.join(ctx.wd(), 'child'))[0]
+    else:
+        all_obs = run_case(tree, wdir, pool, TestReport, cfg)
     print('cfg:', json.dumps(cfg))
     print('tree:', json.dumps(tree))
     for obs in all_obs:
-        print('impl:', json.dumps({k: obs[k] for k in ('raised', 'files', 'pages', 'figs', 'others')}))
-        oracle(ctx, tree, obs, pool, cfg)
-    obs = all_obs[-1]
+        print('impl:', json.dumps({k: obs.get(k) for k in ('tree', 'structural', 'raised', 'files', 'pages', 'figs',
+                                                           'others')}))
+        oracle(ctx, obs.get('tree', tree), obs, pool, cfg, main=tree)
+    obs = all_obs[0]
+    tree = obs.get('tree', tree)
     for v in ctx.violations:
         print('oracle:', v[1][:600])
     body = ('Definition c := (' + coq_tree(tree, pool) + ', ' + coq_obs(obs) + ').\n'
